@@ -3,10 +3,11 @@
 
 1. copies patch.diff and the demonstration into /verif/seeded/<name>/
 2. in a fresh scratch worktree of /repo HEAD: demo passes without the patch, fails with it, test suite still 403 passed
-3. applies the patch to /repo, runs ./check <property> (quick, no evidence), undoes the patch
+3. runs ./check <property> (quick, no evidence) with VERIF_REPO = a scratch worktree that has the patch; /repo is never touched
 4. writes meta.json
 """
 import json
+import os
 import re
 import shutil
 import subprocess
@@ -61,22 +62,30 @@ def main():
 
 
 def run_checks(dest, meta, checks):
-    # run the checks against /repo with the patch applied
-    rc, out = sh("git -C /repo status --porcelain")
-    assert out.strip() == "", "/repo not clean: " + out
-    rca, outa = sh(f"git -C /repo apply {dest / 'patch.diff'}")
+    # run the checks against a scratch worktree of /repo HEAD with the patch applied (VERIF_REPO), never /repo itself
+    name = meta["name"]
+    sv = Path(f"/tmp/sc-{name}")
+    sh(f"git -C /repo worktree remove --force {sv}")
+    rc, out = sh(f"git -C /repo worktree add --detach {sv} HEAD")
+    assert rc == 0, out
+    rca, outa = sh(f"git apply {dest / 'patch.diff'}", cwd=sv)
     assert rca == 0, outa
     meta.setdefault("checks", {})
+    jobs = os.environ.get("SEED_JOBS", "16")
     try:
         for c in checks:
-            rcc, outc = sh(f"cd /verif && ./check {c} --tier quick --no-evidence", timeout=3600)
+            rcc, outc = sh(
+                f"cd /verif && VERIF_REPO={sv} VERIF_REPLAYS=/tmp/sc-replays-{name} VERIF_JOBS={jobs} ./check {c} --tier quick --no-evidence",
+                timeout=5400,
+            )
             lines = [l for l in outc.splitlines() if l.startswith(("VIOLATION", "HARNESS-ERROR", "INCONCLUSIVE", "==", "  violation"))]
             meta["checks"][c] = {"exit": rcc, "lines": lines[:12]}
             print(f"check {c}: exit {rcc}")
             for l in lines[:8]:
                 print("   ", l[:220])
     finally:
-        sh("git -C /repo checkout -- .")
+        sh(f"git -C /repo worktree remove --force {sv}")
+        shutil.rmtree(f"/tmp/sc-replays-{name}", ignore_errors=True)
     meta["detected_by"] = sorted(c for c, v in meta["checks"].items() if v["exit"] == 1)
     (dest / "meta.json").write_text(json.dumps(meta, indent=1))
     print("detected_by:", meta["detected_by"])
